@@ -347,5 +347,75 @@ def rule_monotone_refill_clock(ctx):
            "State::advance writes refresh_ticks for an older tick (write reachable by order of new vs recorded tick: %s): the refill clock can move backwards" % {k[0]: sorted(v) for k, v in tab.items()}, f.loc())
 
 
-RULES = [("C15.9", rule_monotone_refill_clock), ("C15.1", rule_cancel_safe), ("C15.2", rule_fifo), ("C15.3", rule_state_writers), ("C15.4", rule_open_permit), ("C15.5", rule_server_concurrency),
+def rule_bucket_formulas(ctx):
+    R = "C15.10"
+    ctx.rule(R, "token-bucket bookkeeping (formula identity): a new limiter starts full and idle (permits = burst, no reservation, tick 0) with burst and refresh taken from the configured rate; State::advance adds one permit per elapsed tick and never exceeds the burst (min(permits + ticks, burst)); acquire waits until burst - reserved >= permits and computes the wake-up tick as refresh_ticks + max(0, reserved + permits - available); dropping a permit converts the clock reading to ticks with the limiter's own start and refresh")
+    ST = LIM + "::State"
+    # Limiter::new
+    f = ctx.fn(LIM + "::Limiter::new")
+    T = ctx.T(f)
+    st = None
+    lim = None
+    for b in f.blocks:
+        for s_ in b["s"]:
+            if s_["k"] == "assign" and s_["r"]["k"] == "agg":
+                if s_["r"].get("def") == ST:
+                    st = dict(T.rvalue(s_["r"])[3])
+                if s_["r"].get("def") == LIM + "::Limiter":
+                    lim = dict(T.rvalue(s_["r"])[3])
+    if st is None:
+        # the State literal may be an operand of the channel constructor
+        for c in T.calls():
+            for a in T.args_of(c):
+                for x in subterms(a):
+                    if x[0] == "agg" and x[1] == ST:
+                        st = dict(x[3])
+    ok = st is not None and chain(st.get("permits", ("cunit",)))[1][-1:] == ["burst"] and st.get("refresh_ticks") == ("const", 0) and st.get("reserved") == ("const", 0)
+    ctx.ob(R, "initial state", ok, "State { permits: rate.burst, refresh_ticks: 0, reserved: 0 }" if ok else "a new limiter does not start with permits = burst, no reservation and tick 0: %s" % ({k: show(v)[:40] for k, v in (st or {}).items()}), f.loc())
+    okl = lim is not None and chain(lim.get("burst", ("cunit",)))[1][-1:] == ["burst"] and any(x[0] == "call" and x[1].endswith("whole_nanoseconds") and chain(x[2][0])[1][-1:] == ["refresh"] for x in subterms(lim.get("refresh", ("cunit",)))) \
+        and any(x[0] == "call" and x[1].endswith("Ctx::now") for x in subterms(lim.get("start", ("cunit",))))
+    ctx.ob(R, "limiter parameters", okl, "burst = rate.burst, refresh = rate.refresh in nanoseconds, start = ctx.now()" if okl else "limiter parameters: %s" % ({k: show(v)[:50] for k, v in (lim or {}).items() if k in ("burst", "refresh", "start")}), f.loc())
+    # State::advance: the permits written
+    g = ctx.fn(ST + "::advance")
+    Tg = ctx.T(g)
+    vals = [Tg.rvalue(s_["r"]) for b in g.blocks for s_ in b["s"] if s_["k"] == "assign" and any(isinstance(e, dict) and e.get("n") == "permits" and e.get("o") == ST for e in s_["p"].get("pr", []))]
+    ctx.floor(R, "writes of permits in advance", len(vals), 1)
+    okc = bool(vals)
+    for v in vals:
+        capped = v[0] == "call" and v[1] in ("std::cmp::min", "std::cmp::Ord::min") and any(chain(x)[1][-1:] == ["burst"] for x in v[2])
+        grow = any(x[0] == "call" and x[1].endswith("saturating_add") and any(chain(y)[1][-1:] == ["permits"] for y in x[2]) and
+                   any(z[0] in ("bin", "cbin") and z[1] in ("Sub", "SubWithOverflow") and any(chain(w)[1][-1:] == ["refresh_ticks"] for w in z[2:]) and any(w[0] == "param" for w in z[2:]) for y in x[2] for z in subterms(y)) for x in subterms(v))
+        okc = okc and capped and grow
+    ctx.ob(R, "refill", okc, "permits = min(permits.saturating_add(tick - refresh_ticks), burst)" if okc else "State::advance does not refill as min(permits + elapsed ticks, burst): %s" % [show(v)[:120] for v in vals], g.loc())
+    # acquire: the wait predicate and the wake-up tick
+    a = acquire_body(ctx)
+    Ta = ctx.T(a)
+    fam = [a] + common.family(ctx, a, ("closure",))
+    pred_ok = False
+    for h in fam:
+        if h.kind != "closure" or h.locals[0].s != "bool":
+            continue
+        rt = Inliner(ctx).ret_term(h)
+        if rt is None:
+            continue
+        rt = norm_arith(rt)
+        # burst - reserved >= permits   (any equivalent orientation)
+        txt = show(rt)
+        if "burst" in txt and "reserved" in txt and any(x[0] in ("bin", "call") and (x[1] in ("Ge", "Le") or str(x[1]).endswith(("PartialOrd::ge", "PartialOrd::le"))) for x in subterms(rt)) and \
+                any(x[0] == "bin" and x[1] == "Sub" and chain(x[2])[1][-1:] == ["burst"] and chain(x[3])[1][-1:] == ["reserved"] for x in subterms(rt)):
+            pred_ok = True
+    ctx.ob(R, "wait predicate", pred_ok, "acquire waits for burst - reserved >= permits" if pred_ok else "the wait predicate of acquire is not burst - reserved >= permits", a.loc())
+    need_ok = False
+    for c in Ta.calls():
+        if c["q"].endswith("saturating_sub"):
+            x = [norm_arith(y) for y in Ta.args_of(c)]
+            if len(x) == 2 and x[0][0] == "bin" and x[0][1] == "Add" and any(chain(y)[1][-1:] == ["reserved"] for y in x[0][2:]) and chain(x[1])[1][-1:] == ["permits"] and not any(chain(y)[1][-1:] == ["permits"] and y == x[1] for y in x[0][2:]):
+                need_ok = True
+    add_ok = any(s_["k"] == "assign" and s_["r"]["k"] in ("bin", "cbin") and s_["r"].get("op") in ("Add", "AddWithOverflow") and
+                 any(chain(Ta.operand(o))[1][-1:] == ["refresh_ticks"] for o in (s_["r"].get("a"), s_["r"].get("b")) if o is not None) for b in a.blocks for s_ in b["s"])
+    ctx.ob(R, "wake-up tick", need_ok and add_ok, "need = state.refresh_ticks + (state.reserved + permits).saturating_sub(state.permits)" if need_ok and add_ok else
+           "the wake-up tick of acquire is not refresh_ticks + max(0, reserved + requested - available)", a.loc())
+
+
+RULES = [("C15.10", rule_bucket_formulas), ("C15.9", rule_monotone_refill_clock), ("C15.1", rule_cancel_safe), ("C15.2", rule_fifo), ("C15.3", rule_state_writers), ("C15.4", rule_open_permit), ("C15.5", rule_server_concurrency),
          ("C15.6", rule_rates_wired), ("C15.7", rule_burst), ("C15.8", rule_arithmetic)]
